@@ -952,7 +952,7 @@ def plsr_seq_case(prog):
 
 
 def seq_problems(tier, rng):
-    n = 4 if tier == "quick" else 30
+    n = 3 if tier == "quick" else 30
     out = []
     for k in range(n):
         out.append(dict(kind="reg_seq", which="cp" if k % 2 == 0 else "tucker", gen_seed=rng.randint(0, 10 ** 9)))
@@ -1165,7 +1165,8 @@ def gen_plsr(path):
         if e2.need_nonempty:
             raise Untranslatable(f"CP_PLSR.{name}: shape check subscripts a shape")
         loops_n = [s for s in _ast.walk(fns[name]) if isinstance(s, _ast.For)]
-        if not loops_n or not all(isinstance(l.iter, _ast.Call) and getattr(l.iter.func, "id", "") == "range" and len(l.iter.args) == 1
+        via_transform = name == "predict" and any(isinstance(m, _ast.Call) and _is_self_attr(m.func, "transform") for m in _ast.walk(fns[name]))
+        if (not loops_n and not via_transform) or not all(isinstance(l.iter, _ast.Call) and getattr(l.iter.func, "id", "") == "range" and len(l.iter.args) == 1
                                   and _is_self_attr(l.iter.args[0], "n_components") for l in loops_n):
             raise Untranslatable(f"CP_PLSR.{name}: the component loops do not run over range(self.n_components)")
     # ---- transform: the Y branch
@@ -1320,6 +1321,10 @@ def gen_regressor(path, cls, tag, rebuild_fn, vec_fn, blocks_attr):
         if not (isinstance(s, _ast.Assign) and len(s.targets) == 1 and _is_self_attr(s.targets[0])):
             raise Untranslatable(f"{cls}.fit: statement after the loop " + _ast.dump(s)[:60])
         stores[s.targets[0].attr] = s.value
+    first = post[0] if post else None
+    if not (isinstance(first, _ast.Assign) and len(first.targets) == 1 and _is_self_attr(first.targets[0], "weight_tensor_")):
+        raise Untranslatable(f"{cls}.fit: the first statement after the loop is not `self.weight_tensor_ = weight_tensor_` (with n_iter_max = 0 the source raises "
+                             "there; an attribute bound before it would survive a raising fit)")
     need = {"weight_tensor_", blocks_attr, "vec_W_", "n_iterations_", "norm_W_"}
     if set(stores) != need:
         raise Untranslatable(f"{cls}.fit binds {sorted(stores)} after the loop, expected {sorted(need)}")
@@ -1667,7 +1672,8 @@ def run(chk):
                 chk.finding(ENTRY[kind] + ".predict", {"kind": "predict_z", "which": kind, "W": W, "X": X},
                             "predict != contraction of each sample with the weights over the non-sample modes (exact, integers)", "C19_predict_is_contraction")
     # 2. fitted regressors and PLSR
-    problems = load_corpus() + reg_problems(chk.tier, rng) + plsr_problems(chk.tier, rng)
+    corpus = load_corpus()
+    problems = [p for p in corpus if p.get("kind") not in ("reg_seq", "plsr_seq")] + reg_problems(chk.tier, rng) + plsr_problems(chk.tier, rng)
     fit_problems = plsr_fit_problems(chk.tier, rng) + plsr_conv_problems(chk.tier, rng) + loop_problems(chk.tier, rng)
     skipped = 0
     for p in fit_problems:
@@ -1703,7 +1709,7 @@ def run(chk):
                          "X_shape": list(p["X"].shape), "y_shape": list(np.shape(p["y"])), "params": {k: p[k] for k in ("ncomp", "n_iter", "tol")}, "problem": describe(p)})
             chk.count(n=1); chk.hist("case", "KPlsrFitPerm" if c2.startswith("KPlsrFitPerm") else "KPlsrFit(shifted run)")
     # one object under sequences of calls (predict / transform before fit, raising fits, refits, set_params in between)
-    for p in seq_problems(chk.tier, rng):
+    for p in [q for q in corpus if q.get("kind") in ("reg_seq", "plsr_seq")] + seq_problems(chk.tier, rng):
         try:
             status, c, bad, prog = seq_eval(p)
         except Skip:
